@@ -8,7 +8,13 @@ from hypothesis import strategies as st
 from vlib import rawio, sched
 from vlib.mvccprog import COUNTERS, NAMES, PLAIN, make_storage, populate
 
-SCHEDULE = st.lists(st.sampled_from([0, 0, 0, 0, 0, 1, 1, 2, 3]), min_size=30, max_size=600)
+_DENSE = st.lists(st.sampled_from([0, 0, 0, 0, 0, 1, 1, 2, 3]), min_size=30, max_size=600)
+# few targeted preemptions: run until the n-th yield point of a class, then hand over to thread k
+_SYNC = st.tuples(st.sampled_from(['release', 'release', 'acquire', 'file']),
+                  st.one_of(st.integers(1, 12), st.integers(1, 45)), st.integers(0, 3))
+_FINE = st.tuples(st.sampled_from(['line', 'any']), st.one_of(st.integers(1, 60), st.integers(1, 450)), st.integers(0, 3))
+_SEGMENTS = st.fixed_dictionaries({'segments': st.lists(st.one_of(_SYNC, _SYNC, _FINE).map(list), min_size=1, max_size=14)})
+SCHEDULE = st.one_of(_DENSE, _SEGMENTS, _SEGMENTS)
 
 
 def program_strategy(role):
@@ -172,7 +178,8 @@ class ThreadRun:
         o = conn.root()[nme]
         val = o.n if nme in COUNTERS else o.v
         if nme not in wrote:
-            self.log(th, 'read', (nme, o._p_serial, val))
+            # with the snapshot bound the connection's storage instance holds at this moment
+            self.log(th, 'read', (nme, o._p_serial, val, getattr(conn._storage, '_start', None)))
 
     def packer(self, th, back=0.0):
         from ZODB.FileStorage.FileStorage import FileStorageError
@@ -180,7 +187,7 @@ class ThreadRun:
         def run():
             from vlib import clock
             try:
-                self.log(th, 'pack-start')
+                self.log(th, 'pack-start', clock.CLOCK.now - back)
                 self.db.pack(clock.CLOCK.now - back)
                 self.log(th, 'pack-ok')
             except FileStorageError as e:
@@ -221,7 +228,30 @@ class ThreadRun:
             for nme in revs:
                 have = {t for t, _ in revs[nme]}
                 revs[nme] = sorted([x for x in before[nme] if x[0] not in have] + revs[nme], key=lambda x: x[0])
+        # revisions written by commits that returned during the run and are not in the storage (any more):
+        # placeholders (state unknown); whether a pack was entitled to drop them is judged by history_oracle
+        for tick, th, kind, data in self.events:
+            if kind == 'commit-ok' and data[0]:
+                tid, wrote = data
+                for nme, w in wrote.items():
+                    if nme in revs and tid not in {t for t, _ in revs[nme]}:
+                        revs[nme] = sorted(revs[nme] + [(tid, {'_placeholder': True, 'v': w})], key=lambda x: x[0])
         return revs
+
+    def pack_tids(self):
+        """pack times of the packs started in this run, as tids"""
+        import time
+        from persistent.TimeStamp import TimeStamp
+        out = []
+        for tick, th, kind, data in self.events:
+            if kind == 'pack-start' and data is not None:
+                out.append(TimeStamp(*time.gmtime(data)[:5] + (data % 60,)).raw())
+        return out
+
+    def droppable(self, revs, nme, tid):
+        """may a pack of this run have removed revision tid of nme?  (superseded not later than a pack time)"""
+        later = [t for t, _ in revs[nme] if t > tid]
+        return bool(later) and any(min(later) <= p for p in self.pack_tids())
 
 
 def snapshot_oracle(run, out, prop):
@@ -260,7 +290,7 @@ def snapshot_oracle(run, out, prop):
                 continue
             n += 1
             lo, hi = b'\0' * 8, INF
-            for nme, serial, val in seg['reads']:
+            for nme, serial, val, bound in seg['reads']:
                 key = (nme, serial)
                 if key not in nxt:
                     out.fail((prop, 'threads-snapshot', 'read-of-unknown-revision'),
@@ -268,12 +298,19 @@ def snapshot_oracle(run, out, prop):
                     return n
                 state = nxt[key][1]
                 stored = state.get('n') if nme in COUNTERS else state.get('v')
+                if state.get('_placeholder') and nme in COUNTERS:
+                    stored = val        # (revision packed away since: its state is not known)
                 if stored != val:
                     out.fail((prop, 'threads-snapshot', 'value-differs-from-revision'),
                              'thread %s read %s=%r under serial %r, that revision holds %r' % (th, nme, val, serial, stored))
                     return n
                 lo = max(lo, serial)
                 hi = min(hi, nxt[key][0])
+                if bound is not None and not (serial < bound <= nxt[key][0]):
+                    out.fail((prop, 'threads-snapshot', 'read-not-current-at-bound'),
+                             'thread %s read %s in revision %r (superseded at %r) while its snapshot bound was %r' % (
+                                 th, nme, serial, nxt[key][0], bound))
+                    return n
             if not lo < hi:
                 out.fail((prop, 'threads-snapshot', 'inconsistent-reads'),
                          'thread %s read revisions that never were current together: %r' % (th, seg['reads']))
@@ -295,6 +332,8 @@ def history_oracle(run, out, prop):
     for nme in PLAIN:
         rs = revs[nme]
         for i in range(1, len(rs)):
+            if rs[i][1].get('_placeholder'):
+                continue
             if rs[i][1].get('derived_from') != rs[i - 1][0]:
                 out.fail((prop, 'threads-history', 'revision-derived-from-older'),
                          'revision %r of %s was computed from %r, the preceding revision is %r' % (
@@ -308,7 +347,9 @@ def history_oracle(run, out, prop):
         if kind == 'commit-ok' and data[0]:
             tid, wrote = data
             for nme, w in wrote.items():
-                if (nme, tid) not in present:
+                if present[(nme, tid)].get('_placeholder'):
+                    if run.droppable(revs, nme, tid):
+                        continue
                     out.fail((prop, 'threads-history', 'returned-commit-missing'),
                              'thread %s: commit of %s returned tid %r but the storage has no such revision' % (th, nme, tid))
                     return
